@@ -972,4 +972,229 @@ Section CGProofs.
       exfalso. apply (Rinv_neq_0_compat (norm b)); [lra | exact H]. }
     pose proof (norm_zero _ N0 p Hp) as Z0. rewrite (I1 p Hp) in Z0. lra.
   Qed.
+
+  (* non-vacuity of the certificate: a right-hand side that is an eigenvector of A is solved exactly in one
+     iteration from the zero initial guess *)
+  Lemma vdot_eq u v : vdot Rops P pts u v = lsumR (fun q => u q * v q) pts.
+  Proof. reflexivity. Qed.
+
+  Lemma cg_eigen_one_step itmax tol b lam err0 :
+    (forall p, In p pts -> A b p = lam * b p) -> lam <> 0 -> cg_eps Rops <= norm b -> 0 <= tol ->
+    let o := cg_solve Rops P peqb pts A (S itmax) tol b (fun _ => 0) err0 in
+    out_iter o = 1%Z /\ out_err o = 0.
+  Proof.
+    intros Heig Hlam Hb Htol. cbv zeta. pose proof cg_eps_pos as Hp.
+    assert (A0 : forall p, In p pts -> A (fun _ => 0) p = 0).
+    { intros p Hpp. pose proof (A_linear (fun _ => 0) (fun _ => 0) (-1) p) as L. cbv beta in L.
+      assert (E : A (fun _ : P => 0 + -1 * 0) p = A (fun _ => 0) p) by (apply A_ext; auto; intros; ring).
+      rewrite E in L. lra. }
+    unfold cg_solve.
+    set (r0 := tabR (fun q => nsub Rops (b q) (A (fun _ => 0) q))).
+    assert (Hr0 : forall q, In q pts -> r0 q = b q).
+    { intros q Hq. unfold r0. rewrite tab_spec by auto. cbn [nsub Rops]. rewrite A0 by auto. ring. }
+    assert (El : nltb Rops (l2norm Rops P pts b) (cg_eps Rops) = false) by (cbn [nltb Rops]; apply Rltb_false; exact Hb).
+    rewrite El. cbn [cg_loop].
+    change (0 + 1 =? 1)%Z with true. cbv iota.
+    set (bknum := vdot Rops P pts r0 r0).
+    set (p' := tabR r0).
+    set (z := tabR (A p')).
+    set (ak := ndiv Rops bknum (vdot Rops P pts z p')).
+    set (x' := tabR (fun q => nadd Rops 0 (nmul Rops ak (p' q)))).
+    set (r' := tabR (fun q => nsub Rops (r0 q) (nmul Rops ak (z q)))).
+    set (s := lsumR (fun q => b q * b q) pts).
+    assert (Hs : s <> 0).
+    { intros E. rewrite norm_eq in Hb. fold s in Hb. rewrite E, sqrt_0 in Hb. lra. }
+    assert (Hp' : forall q, In q pts -> p' q = b q) by (intros q Hq; unfold p'; rewrite tab_spec by auto; apply Hr0; auto).
+    assert (Hz : forall q, In q pts -> z q = lam * b q).
+    { intros q Hq. unfold z. rewrite tab_spec by auto. rewrite (A_ext p' b q Hq Hp'). apply Heig; auto. }
+    assert (Hbk : bknum = s).
+    { unfold bknum. rewrite vdot_eq. apply lsumR_ext. intros q Hq. rewrite Hr0 by auto. reflexivity. }
+    assert (Hak : vdot Rops P pts z p' = lam * s).
+    { rewrite vdot_eq. rewrite (lsumR_ext _ (fun q => lam * (b q * b q))) by (intros q Hq; rewrite Hz, Hp' by auto; ring).
+      unfold s. clear. induction pts as [|a l IH]; [unfold lsumR; cbn; ring | rewrite !lsumR_cons, IH; ring]. }
+    assert (Hr' : forall q, In q pts -> r' q = 0).
+    { intros q Hq. unfold r', ak. rewrite tab_spec by auto. cbn [nsub nmul ndiv Rops].
+      rewrite Hr0, Hz, Hak, Hbk by auto. field. split; auto. }
+    assert (Hn : l2norm Rops P pts r' = 0).
+    { rewrite (norm_ext r' (fun _ => 0) Hr'). rewrite norm_eq.
+      replace (lsumR (fun _ : P => 0 * 0) pts) with 0; [apply sqrt_0|].
+      clear. induction pts as [|a l IH]; [reflexivity | rewrite lsumR_cons, <- IH; ring]. }
+    rewrite Hn. cbn [ndiv nleb Rops]. unfold Rdiv. rewrite Rmult_0_l.
+    rewrite (proj2 (Rleb_true 0 tol)) by exact Htol.
+    unfold out_iter, out_err. cbn [fst snd]. split; reflexivity.
+  Qed.
 End CGProofs.
+
+(* ================================================================== the discrete Poisson statement *)
+Section Poisson2.
+  Variable sc : smooth_cfg.
+  Variable sm : bool.
+  Variable sh : shape2 (T:=R).
+  Hypothesis Hnx : (0 < nxg sh)%Z.
+  Hypothesis Hny : (0 < nyg sh)%Z.
+
+  Notation pts := (all_ix2 sh).
+  Notation nrm := (l2norm Rops (Z * Z) pts).
+  Notation A := (atimes2 Rops sh).
+
+  Lemma A2_ext f g p : In p pts -> (forall q, In q pts -> f q = g q) -> A f p = A g p.
+  Proof.
+    intros Hp H. apply (atimes2_ext sh Hnx Hny); [apply (in_all_ix2 sh); auto|].
+    intros q Hq. apply H. apply (in_all_ix2 sh). auto.
+  Qed.
+
+  (* integrate() after any history of samples: the right-hand side handed to the solver is the divergence
+     of the final gradients (incremental = batch), that problem is solvable (it sums to zero), and what the
+     solver returns satisfies the residual bound / the equation itself *)
+  Lemma poisson2 st itmax tol x0 err0 :
+    consistent2 Rops sc sm sh st ->
+    let D := div_value2 Rops sc sm sh st in
+    let o := integrate2 Rops sh itmax tol (dv2 st) x0 err0 in
+    lsumR D pts = 0 /\
+    ((1 <= out_iter _ o)%Z -> out_err _ o <= tol -> nrm (fun p => D p - A (out_x _ o) p) <= tol * nrm D) /\
+    ((1 <= out_iter _ o)%Z -> out_err _ o = 0 -> forall p, in_pmf2 sh p -> A (out_x _ o) p = D p) /\
+    ((1 <= out_iter _ o < Z.of_nat itmax)%Z -> out_err _ o <= tol).
+  Proof.
+    intros Hc. cbv zeta. unfold integrate2.
+    assert (Hd : forall q, In q pts -> dv2 st q = div_value2 Rops sc sm sh st q)
+      by (intros q Hq; apply Hc; apply (in_all_ix2 sh); auto).
+    split; [apply divergence_sums_to_zero2; auto|]. split; [|split].
+    - intros Hit Herr.
+      pose proof (cg_residual_certificate _ _ ix2_eqb_eq pts A (atimes2_linear sh) A2_ext itmax tol (dv2 st) x0 err0 Hit Herr) as H.
+      cbv zeta in H.
+      rewrite (norm_ext _ pts (dv2 st) (div_value2 Rops sc sm sh st) Hd) in H.
+      erewrite (norm_ext _ pts) in H; [exact H|]. intros q Hq. cbv beta. rewrite Hd by auto. reflexivity.
+    - intros Hit Herr p Hp. rewrite <- Hd by (apply (in_all_ix2 sh); auto).
+      apply (cg_exact _ _ ix2_eqb_eq pts A (atimes2_linear sh) A2_ext itmax tol (dv2 st) x0 err0 Hit Herr).
+      apply (in_all_ix2 sh); auto.
+    - intros Hit.
+      destruct (cg_solve_spec _ _ ix2_eqb_eq pts A (atimes2_linear sh) A2_ext itmax tol (dv2 st) x0 err0) as [_ [_ [_ [H _]]]].
+      apply H. exact Hit.
+  Qed.
+End Poisson2.
+
+Section Poisson3.
+  Variable sc : smooth_cfg.
+  Variable sm : bool.
+  Variable sh : shape3 (T:=R).
+  Hypothesis Hnx : (0 < mxg sh)%Z.
+  Hypothesis Hny : (0 < myg sh)%Z.
+  Hypothesis Hnz : (0 < mzg sh)%Z.
+
+  Notation pts := (all_ix3 sh).
+  Notation nrm := (l2norm Rops (Z * Z * Z) pts).
+  Notation A := (atimes3 Rops sh).
+
+  Lemma A3_ext f g p : In p pts -> (forall q, In q pts -> f q = g q) -> A f p = A g p.
+  Proof.
+    intros Hp H. apply (atimes3_ext sh Hnx Hny Hnz); [apply (in_all_ix3 sh); auto|].
+    intros q Hq. apply H. apply (in_all_ix3 sh). auto.
+  Qed.
+
+  Lemma poisson3 st itmax tol x0 err0 :
+    consistent3 Rops sc sm sh st ->
+    let D := div_value3 Rops sc sm sh st in
+    let o := integrate3 Rops sh itmax tol (dv3 st) x0 err0 in
+    lsumR D pts = 0 /\
+    ((1 <= out_iter _ o)%Z -> out_err _ o <= tol -> nrm (fun p => D p - A (out_x _ o) p) <= tol * nrm D) /\
+    ((1 <= out_iter _ o)%Z -> out_err _ o = 0 -> forall p, in_pmf3 sh p -> A (out_x _ o) p = D p) /\
+    ((1 <= out_iter _ o < Z.of_nat itmax)%Z -> out_err _ o <= tol).
+  Proof.
+    intros Hc. cbv zeta. unfold integrate3.
+    assert (Hd : forall q, In q pts -> dv3 st q = div_value3 Rops sc sm sh st q)
+      by (intros q Hq; apply Hc; apply (in_all_ix3 sh); auto).
+    split; [apply divergence_sums_to_zero3; auto|]. split; [|split].
+    - intros Hit Herr.
+      pose proof (cg_residual_certificate _ _ ix3_eqb_eq pts A (atimes3_linear sh) A3_ext itmax tol (dv3 st) x0 err0 Hit Herr) as H.
+      cbv zeta in H.
+      rewrite (norm_ext _ pts (dv3 st) (div_value3 Rops sc sm sh st) Hd) in H.
+      erewrite (norm_ext _ pts) in H; [exact H|]. intros q Hq. cbv beta. rewrite Hd by auto. reflexivity.
+    - intros Hit Herr p Hp. rewrite <- Hd by (apply (in_all_ix3 sh); auto).
+      apply (cg_exact _ _ ix3_eqb_eq pts A (atimes3_linear sh) A3_ext itmax tol (dv3 st) x0 err0 Hit Herr).
+      apply (in_all_ix3 sh); auto.
+    - intros Hit.
+      destruct (cg_solve_spec _ _ ix3_eqb_eq pts A (atimes3_linear sh) A3_ext itmax tol (dv3 st) x0 err0) as [_ [_ [_ [H _]]]].
+      apply H. exact Hit.
+  Qed.
+End Poisson3.
+
+(* ------------------------------------------------------------------ from histories of samples *)
+Lemma poisson2_history sc sm (sh : shape2 (T:=R)) st0 pre h itmax tol x0 err0 :
+  (0 < nxg sh)%Z -> (0 < nyg sh)%Z -> Forall (fun e => in_grad2 sh (fst e)) h ->
+  let st := run2 Rops sc sm sh (set_div2 Rops sc sm sh (preload2 Rops st0 pre)) h in
+  let D := div_value2 Rops sc sm sh st in
+  let o := integrate2 Rops sh itmax tol (dv2 st) x0 err0 in
+  lsumR D (all_ix2 sh) = 0 /\
+  ((1 <= out_iter _ o)%Z -> out_err _ o <= tol ->
+     l2norm Rops _ (all_ix2 sh) (fun p => D p - atimes2 Rops sh (out_x _ o) p) <= tol * l2norm Rops _ (all_ix2 sh) D) /\
+  ((1 <= out_iter _ o)%Z -> out_err _ o = 0 -> forall p, in_pmf2 sh p -> atimes2 Rops sh (out_x _ o) p = D p) /\
+  ((1 <= out_iter _ o < Z.of_nat itmax)%Z -> out_err _ o <= tol).
+Proof.
+  intros Hx Hy Hh. apply poisson2; auto. apply run2_consistent; auto. apply set_div2_consistent; auto.
+Qed.
+
+Lemma poisson3_history sc sm (sh : shape3 (T:=R)) st0 pre h itmax tol x0 err0 :
+  (0 < mxg sh)%Z -> (0 < myg sh)%Z -> (0 < mzg sh)%Z -> Forall (fun e => in_grad3 sh (fst e)) h ->
+  let st := run3 Rops sc sm sh (set_div3 Rops sc sm sh (preload3 Rops st0 pre)) h in
+  let D := div_value3 Rops sc sm sh st in
+  let o := integrate3 Rops sh itmax tol (dv3 st) x0 err0 in
+  lsumR D (all_ix3 sh) = 0 /\
+  ((1 <= out_iter _ o)%Z -> out_err _ o <= tol ->
+     l2norm Rops _ (all_ix3 sh) (fun p => D p - atimes3 Rops sh (out_x _ o) p) <= tol * l2norm Rops _ (all_ix3 sh) D) /\
+  ((1 <= out_iter _ o)%Z -> out_err _ o = 0 -> forall p, in_pmf3 sh p -> atimes3 Rops sh (out_x _ o) p = D p) /\
+  ((1 <= out_iter _ o < Z.of_nat itmax)%Z -> out_err _ o <= tol).
+Proof.
+  intros Hx Hy Hz Hh. apply poisson3; auto. apply run3_consistent; auto. apply set_div3_consistent; auto.
+Qed.
+
+(* ------------------------------------------------------------------ non-vacuity witnesses *)
+Definition sh22 : shape2 (T:=R) := mkShape2 false false 1 1 1 1.
+Definition b22 : Z * Z -> R := fun p => IZR (snd p - fst p).
+
+Lemma pts22 : all_ix2 sh22 = [(0, 0); (0, 1); (1, 0); (1, 1)]%Z.
+Proof. reflexivity. Qed.
+
+Lemma b22_eigen p : In p (all_ix2 sh22) -> atimes2 Rops sh22 b22 p = -1 * b22 p.
+Proof.
+  rewrite pts22. intros Hp.
+  destruct Hp as [<-|[<-|[<-|[<-|[]]]]]; cbv - [Rplus Rminus Rmult Rdiv Rinv Ropp IZR]; lra.
+Qed.
+
+Lemma b22_norm : cg_eps Rops <= l2norm Rops (Z * Z) (all_ix2 sh22) b22.
+Proof.
+  rewrite pts22. cbv - [Rplus Rminus Rmult Rdiv Rinv Ropp IZR Rle sqrt].
+  apply Rle_trans with 1; [lra|]. rewrite <- sqrt_1 at 1. apply sqrt_le_1_alt. lra.
+Qed.
+
+Lemma cg_example2 : let o := integrate2 Rops sh22 1 0 b22 (fun _ => 0) 0 in
+  out_iter _ o = 1%Z /\ out_err _ o = 0.
+Proof.
+  apply (cg_eigen_one_step _ _ ix2_eqb_eq (all_ix2 sh22) (atimes2 Rops sh22) (atimes2_linear sh22)
+           (A2_ext sh22 ltac:(reflexivity) ltac:(reflexivity)) 0%nat 0 b22 (-1) 0 b22_eigen); [lra | apply b22_norm | lra].
+Qed.
+
+Definition sh222 : shape3 (T:=R) := mkShape3 false false false 1 1 1 1 1 1.
+Definition b222 : Z * Z * Z -> R := fun p => IZR (snd p - fst (fst p)).
+
+Lemma pts222 : all_ix3 sh222 = [(0,0,0); (0,0,1); (0,1,0); (0,1,1); (1,0,0); (1,0,1); (1,1,0); (1,1,1)]%Z.
+Proof. reflexivity. Qed.
+
+Lemma b222_eigen p : In p (all_ix3 sh222) -> atimes3 Rops sh222 b222 p = - (1 / 2) * b222 p.
+Proof.
+  rewrite pts222. intros Hp.
+  destruct Hp as [<-|[<-|[<-|[<-|[<-|[<-|[<-|[<-|[]]]]]]]]]; cbv - [Rplus Rminus Rmult Rdiv Rinv Ropp IZR]; lra.
+Qed.
+
+Lemma b222_norm : cg_eps Rops <= l2norm Rops (Z * Z * Z) (all_ix3 sh222) b222.
+Proof.
+  rewrite pts222. cbv - [Rplus Rminus Rmult Rdiv Rinv Ropp IZR Rle sqrt].
+  apply Rle_trans with 1; [lra|]. rewrite <- sqrt_1 at 1. apply sqrt_le_1_alt. lra.
+Qed.
+
+Lemma cg_example3 : let o := integrate3 Rops sh222 1 0 b222 (fun _ => 0) 0 in
+  out_iter _ o = 1%Z /\ out_err _ o = 0.
+Proof.
+  apply (cg_eigen_one_step _ _ ix3_eqb_eq (all_ix3 sh222) (atimes3 Rops sh222) (atimes3_linear sh222)
+           (A3_ext sh222 ltac:(reflexivity) ltac:(reflexivity) ltac:(reflexivity)) 0%nat 0 b222 (- (1 / 2)) 0 b222_eigen);
+    [lra | apply b222_norm | lra].
+Qed.
